@@ -118,9 +118,10 @@ def run(rep, tier, seed, replay, proof_ok, proof_msg):
     n_eval, distinct, hist, samples = 0, set(), collections.Counter(), []
     oracle_found = False
     corr_broken = []
+    ftree_replay = bool(replay) and any(ln.startswith("ftree ") for ln in open(replay))
     if not path:
         rep.violation("harness-does-not-compile", log[-4000:], False, "harness/h_layout.cpp does not compile against /repo/src: the layout correspondence cannot be checked")
-    else:
+    elif not ftree_replay:
         if replay:
             lines = [ln.rstrip("\n") for ln in open(replay) if ln.strip() and not ln.startswith("#")]
             tid = int([ln for ln in lines if ln.startswith("layout ")][0].split()[1])
@@ -178,6 +179,32 @@ def run(rep, tier, seed, replay, proof_ok, proof_msg):
                     oracle_found = True
                     rep.violation("C14:treecopy", "# %s\n%s\n" % (ln, "\n".join(r_.case["lines"])), True, "byte copy of a tree group is not an equivalent view: %s" % ln)
             distinct.add(("tree", repr(sorted(r_.case["parts"])), r_.case["bs"], r_.case["mode"]))
+    if (path and not replay) or ftree_replay:
+        # the same on trees of every scalar configuration whose multipole and local types have different sizes (construction harness),
+        # through both raw-memory constructors
+        import ftree
+        fbin, fbad = ftree.build_all()
+        fcases = []
+        if replay:
+            fcases = [ftree.parse_replay(replay)]
+        else:
+            cfgs = [c for c in sorted(fbin) if c[4] > 0]
+            for k in range((40 if tier == "quick" else 600) if cfgs else 0):
+                r = gen.rng(seed, "C14f", k)
+                fcases.append(ftree.make_case("c14f-%d" % k, cfgs[k % len(cfgs)], r, tier, False, False))
+        for r_ in ftree.run_cases(fcases, fbin):
+            n_eval += 1
+            text = "# cfg=%r\n" % (r_.case["cfg"],) + "\n".join(r_.case["lines"]) + "\n"
+            if r_.crash is not None:
+                rep.violation("crash:" + corefam.crash_signature(r_.crash), "# " + r_.crash.replace("\n", "\n# ") + "\n" + text, True, "library aborted on %s" % r_.case["name"])
+                oracle_found = True
+                continue
+            for ln in core.section(r_.cpp or [], "BC "):
+                if "bad=0" not in ln:
+                    oracle_found = True
+                    rep.violation("C14:treecopy-types", "# %s\n%s" % (ln, text), True,
+                                  "byte copy of a group of a tree (configuration %r, multipole and local of different sizes) is not an equivalent view: %s" % (r_.case["cfg"], ln))
+            distinct.add(("ftree", r_.case["name"]))
     for c, msg in corr_broken[:3]:
         rep.violation("corr:layout", "# correspondence (TbfMemoryBlock vs Lean layout model) no longer holds: %s\n# the property's oracle accepts the library's addresses on this input\n%s\n" % (msg, "\n".join(c["lines"])),
                       False, "case %s: %s" % (c["name"], msg))
